@@ -1,9 +1,15 @@
 #!/bin/sh
-# extract the Gallina model (ExtrOcamlBasic only) and build the generic driver
+# usage: ocaml/build.sh Cxx
+# extract the x_* functions of coq/Run/RunCxx*.v (ExtrOcamlBasic only) and build build/ocaml-Cxx/driver
 set -e
-cd "$(dirname "$0")"
-names=$(grep -ho '^Definition x_[A-Za-z0-9_]*' ../coq/Run/*.v | awk '{print $2}' | sort)
-mods=$(ls ../coq/Run/*.v | xargs -n1 basename | sed 's/\.v$//' | sort)
+prop="$1"
+here="$(cd "$(dirname "$0")" && pwd)"
+out="$here/../build/ocaml-$prop"
+mkdir -p "$out"
+cd "$out"
+files=$(ls "$here"/../coq/Run/Run"$prop"*.v)
+names=$(grep -ho '^Definition x_[A-Za-z0-9_]*' $files | awk '{print $2}' | sort)
+mods=$(for f in $files; do basename "$f" .v; done | sort)
 {
   echo "From Coq Require Import ExtrOcamlBasic."
   echo "From V Require Import Val."
@@ -12,16 +18,19 @@ mods=$(ls ../coq/Run/*.v | xargs -n1 basename | sed 's/\.v$//' | sort)
   printf 'Extraction "model.ml"'
   for n in $names; do printf ' %s' "$n"; done
   echo "."
-} > extract.v
+} > extract.v.new
 {
   echo "open Model"
   echo "let table : (string * (val0 -> val0)) list = ["
   for n in $names; do short=$(echo "$n" | sed 's/^x_//'); echo "  (\"$short\", $n);"; done
   echo "]"
 } > registry.ml
-new=$(cat extract.v registry.ml driver.ml ../coq/Run/*.vo 2>/dev/null | md5sum)
-if [ -x driver ] && [ "$(cat .stamp 2>/dev/null)" = "$new" ]; then exit 0; fi
-coqc -Q ../coq V extract.v > extract.log 2>&1 || { cat extract.log; exit 1; }
-ocamlfind ocamlopt -O3 -w -a -package str model.mli model.ml registry.ml driver.ml -o driver 2>/dev/null || \
+cp "$here/driver.ml" driver.ml
+vos=$(for f in $files; do echo "${f%.v}.vo"; done)
+new=$(cat extract.v.new registry.ml driver.ml $vos 2>/dev/null | md5sum)
+if [ -x driver ] && [ "$(cat .stamp 2>/dev/null)" = "$new" ]; then rm -f extract.v.new; exit 0; fi
+mv extract.v.new extract.v
+coqc -Q "$here/../coq" V extract.v > extract.log 2>&1 || { cat extract.log; exit 1; }
+ocamlfind ocamlopt -O3 -w -a model.mli model.ml registry.ml driver.ml -o driver 2>/dev/null || \
 ocamlfind ocamlopt -w -a model.mli model.ml registry.ml driver.ml -o driver
 echo "$new" > .stamp
